@@ -1,6 +1,7 @@
 import LJT.Ops.C03
 import LJT.Ops.C07
 import LJT.Model.T81Enc
+import LJT.Model.DCT
 namespace LJT.Ops
 open LJT.T81 LJT.T81Enc
 
@@ -18,7 +19,7 @@ def opC04 : List String → Option String
     let seed ← nat? seed; let w ← nat? w; let h ← nat? h; let ri ← nat? ri; let fl ← nat? flags
     let hv ← nats? hvs
     let comps := hv.map (fun x => (x / 10, x % 10))
-    let o : Opts := ⟨fl % 2 == 1, (fl / 2) % 2 == 1, (fl / 4) % 2 == 1, (fl / 16) % 4, (fl / 8) % 2 == 1, (fl / 64) % 4, ri⟩
+    let o : Opts := { q16 := fl % 2 == 1, joinTables := (fl / 2) % 2 == 1, fill := (fl / 4) % 2 == 1, driPos := (fl / 16) % 4, split := (fl / 8) % 2 == 1, tblShift := (fl / 64) % 4, ri := ri }
     let qs := [(List.range 64).map (c04Quant o.q16 0), (List.range 64).map (c04Quant o.q16 1)]
     match encode o w h comps qs (c04Coef seed) with
     | none => some "skip unencodable"
@@ -37,6 +38,17 @@ def opC04 : List String → Option String
     let seed ← nat? seed; let w ← nat? w; let h ← nat? h; let ri ← nat? ri; let hs ← nat? hs; let vs ← nat? vs; let nc ← nat? nc
     let comps := if nc == 1 then [(1, 1)] else [(hs, vs), (1, 1), (1, 1)]
     match scanBytes w h comps ri (c04Coef seed) with
+    | none => some "unencodable"
+    | some bs => some s!"{bs.length} {fnv bs}"
+  -- seqfile seed w h ri hs vs nc : the whole baseline file libjpeg-turbo must write (jcmarker.c layout: SOI, JFIF APP0, one DQT per
+  -- table, SOF0, one DHT per table in scan-component order, DRI, SOS, data, EOI) for quality 75 and the formula coefficients
+  | ["seqfile", seed, w, h, ri, hs, vs, nc] => do
+    let seed ← nat? seed; let w ← nat? w; let h ← nat? h; let ri ← nat? ri; let hs ← nat? hs; let vs ← nat? vs; let nc ← nat? nc
+    let comps := if nc == 1 then [(1, 1)] else [(hs, vs), (1, 1), (1, 1)]
+    let sc := LJT.DCT.qualityScaling 75
+    let qs := [LJT.DCT.scaleTable Gen.Src.std_luminance_quant_tbl sc true, LJT.DCT.scaleTable Gen.Src.std_chrominance_quant_tbl sc true]
+    let o : Opts := { q16 := false, joinTables := false, fill := false, driPos := 2, split := false, tblShift := 0, ri := ri, jfif := true, ljDummies := true }
+    match encode o w h comps qs (c04Coef seed) with
     | none => some "unencodable"
     | some bs => some s!"{bs.length} {fnv bs}"
   | ["susp", _, _, hex] => do
